@@ -139,19 +139,20 @@ type Sim struct {
 	parked []parkedEntry // len <= tableCap, never reallocated
 	ctx    []ctxEntry    // goroutine id -> context
 
-	live     atomic.Int64 // top-level goroutines not yet returned
-	panics   []string
-	siteOn   [256]bool
-	siteMod  [256]uint32 // park only when hash%mod==0 (0/1 => always)
-	DupOK    [256]bool   // sites at which identical labels are tolerated
-	Policy   Policy
-	StepCap  int
-	Deadline time.Time
-	Stats    Stats
-	hash     uint64
-	lastSite Site
-	selfID   uint64
-	seen     map[Label]struct{}
+	live       atomic.Int64 // top-level goroutines not yet returned
+	panics     []string
+	siteOn     [256]bool
+	siteMod    [256]uint32 // park only when hash%mod==0 (0/1 => always)
+	DupOK      [256]bool   // sites at which identical labels are tolerated
+	Policy     Policy
+	StepCap    int
+	Deadline   time.Time
+	StallAfter time.Duration // run the livelock detector when nothing has quiesced for this long (0 = never)
+	Stats      Stats
+	hash       uint64
+	lastSite   Site
+	selfID     uint64
+	seen       map[Label]struct{}
 }
 
 var cur atomic.Pointer[Sim]
@@ -399,6 +400,20 @@ func (s *Sim) Run() Verdict {
 	}
 	for {
 		snap, ok := s.waitQuiescent()
+		if !ok && snap.Why == "livelock" {
+			var spin []GoroutineInfo
+			for _, g := range snap.Others {
+				if !g.Stable {
+					spin = append(spin, g)
+				}
+			}
+			for _, g := range snap.Others {
+				if g.Stable {
+					spin = append(spin, g)
+				}
+			}
+			return Verdict{Kind: "livelock", Detail: "a goroutine has been running in the same function for the whole observation window while burning CPU; the top-level call has not returned", Steps: s.Stats.Steps, TraceHash: s.hash, Blocked: spin}
+		}
 		if !ok {
 			return Verdict{Kind: "watchdog", Detail: "no quiescence before the wall-clock deadline: " + snap.Why, Steps: s.Stats.Steps, TraceHash: s.hash, Blocked: snap.Others}
 		}
